@@ -17,7 +17,7 @@ func init() {
 		Rule: "payloader: one case = (mode, MTU, source of the initial picture id, frame header from the reference bit writer, frame length relative to the MTU), three frames per payloader instance; header parser: one case = one written header; decoder: one case = one descriptor from the reference encoder (all 256 flag octets x field values) with every truncation; non-trivial = frame needs several packets or carries a scalability structure / descriptor has optional fields",
 		Assumptions: []string{
 			"frame headers: profiles 0-3 x bit depth x colour spaces 0-7 x range x subsampling with 3 sizes, and all 36 sizes from {1,2,255,256,257,65535}^2 with 4 colour configurations; key, inter, intra-only and show-existing frames; every width 1..65536 x 3 heights in the header-parser sweep (thorough; quick: 4096 widths around byte boundaries)",
-			"MTU {4,11,12,13,14,20,100,1200}; a configuration whose MTU cannot carry the descriptor (3 bytes, 11 on the first packet of a non-flexible key frame) plus one byte is outside the property (sufficient MTU)",
+			"MTU {4,11,12,13,14,20,100,1200} (thorough: every MTU 4..40 and {63,64,65,100,255,256,257,1200,65535}); a configuration whose MTU cannot carry the descriptor (3 bytes, 11 on the first packet of a non-flexible key frame) plus one byte is outside the property (sufficient MTU)",
 			"P is demanded for key (0) and inter (1) frames in non-flexible mode; for intra-only and show-existing frames nothing is demanded of P and the scalability structure",
 			"large scalability structures: N_G in {4,16,64,85,86,128,255} x R patterns (all 0, all 3, cyclic) x N_S {0,7} x Y, truncations sampled (every cut below 24, every 7th, the last 6)",
 			"large frames: key and inter frames of {65535,65536,65537,70000,140000} bytes (aperiodic content) at MTU {100,1200,65535} in both modes, preceded by a small frame on the same payloader",
@@ -234,7 +234,14 @@ func (g *c12Gen) GenerateString(int, string) string { return "" }
 
 func c12Payloader(c *mc.Ctx) {
 	flexible := c.Bool()
-	mtu := mc.From(c, []int{4, 11, 12, 13, 14, 20, 100, 1200})
+	mtus := []int{4, 11, 12, 13, 14, 20, 100, 1200}
+	if c.Thorough() {
+		mtus = []int{63, 64, 65, 100, 255, 256, 257, 1200, 65535}
+		for m := 4; m <= 40; m++ {
+			mtus = append(mtus, m)
+		}
+	}
+	mtu := mc.From(c, mtus)
 	src := c.Pick(11) // 0-3: InitialPictureIDFn {0,1,0x7FFE,0x7FFF}; 4-6: random seam answers {0,1,0x7FFE}; 7-10: InitialPictureIDFn {0x8000,0x8001,0xFFFE,0xFFFF} (only the low 15 bits count)
 	h := c12Frame(c)
 	lenClass := c.Pick(5)
